@@ -1,5 +1,5 @@
 CONSTANT KeyMode = "value"
-CONSTANT MaxOps = 7
+CONSTANT MaxOps = 6
 CONSTANT NPool = 8
 CONSTANT Bug = "none"
 INIT Init
